@@ -424,6 +424,21 @@ def leavesList : List W → List W
   | q :: qs => leaves q ++ leavesList qs
 end
 
+/-! ## a retained query object executed several times -/
+
+/-- one execution: what every leaf hands to its index, and the object afterwards.  `_get_value`
+builds new lists/tuples, `_get_start/_get_end` likewise: executing writes nothing into the object. -/
+def execOnce (names : Names) (w : W) : W × List (Except Err W) :=
+  (w, (leaves w).map (resolveLeaf names))
+
+/-- successive executions of the same object with different `names` -/
+def execSeq : W → List Names → W × List (List (Except Err W))
+  | w, [] => (w, [])
+  | w, n :: ns =>
+    let (w1, r) := execOnce n w
+    let (w2, rs) := execSeq w1 ns
+    (w2, r :: rs)
+
 /-! ## `__eq__` -/
 
 mutual
